@@ -11,7 +11,7 @@ class Harness:
     def __init__(self, name, file, inst, obligation, profile="R", tier="quick",
                  timeout=600, mem_gb=6, shape=None, input_class="any",
                  replay="playback", replay_args=None, unwind_is_violation=False,
-                 contract_stubs=(), note="", kissat=True):
+                 contract_stubs=(), note="", kissat=True, should_panic=False):
         self.name = name                  # harness fn name (unique per property)
         self.file = file                  # harness source in /verif/harness
         self.inst = inst                  # macro instantiation line ('' when the fn is written out)
@@ -27,6 +27,7 @@ class Harness:
         self.unwind_is_violation = unwind_is_violation
         self.contract_stubs = tuple(contract_stubs)
         self.note = note
+        self.should_panic = should_panic  # #[kani::should_panic]: assertion-class failures are the expected panics
         self.kissat = kissat              # re-decide with kissat in the thorough tier
         self.full = None                  # filled by the driver
 
